@@ -1,0 +1,17 @@
+//go:build verif
+
+package graph
+
+// Verification hooks (add-only, build tag `verif`): the fields of DirectedEdge and UndirectedEdge are
+// unexported and the package has no constructor, so a client outside the package cannot build a
+// weighted graph.  These two functions are the only way the correspondence harness creates edges.
+
+// VerifDirectedEdge returns DirectedEdge{from, to, weight}.
+func VerifDirectedEdge(from, to int, weight float64) DirectedEdge {
+	return DirectedEdge{from, to, weight}
+}
+
+// VerifUndirectedEdge returns UndirectedEdge{v, w, weight}.
+func VerifUndirectedEdge(v, w int, weight float64) UndirectedEdge {
+	return UndirectedEdge{v, w, weight}
+}
